@@ -3117,3 +3117,15 @@ func (in *Interp) InitValueOf(root, path string) (Value, bool) {
 
 // InDeferred reports whether the interpreter is running a deferred call.
 func (in *Interp) InDeferred() bool { return in.deferDepth > 0 }
+
+// NewConcreteBytes allocates fresh storage holding the given bytes and returns
+// the slice over it.
+func (in *Interp) NewConcreteBytes(st *State, bs []dom.BV) *Slice {
+	in.allocN++
+	r := fmt.Sprintf("alloc#%d", in.allocN)
+	in.roots[r] = &rootInfo{}
+	for i, b := range bs {
+		st.Set(r, elemPath("", i), b)
+	}
+	return &Slice{Root: r, Lo: 0, Len: in.C.Const(in.intWidth(), uint64(len(bs))), Nil: bdd.False}
+}
